@@ -22,7 +22,7 @@ RULE = ("Tables of 1-40 rows x 1-6 columns whose string cells carry their origin
         "height, row justification) drawn with probability 0.3 in one of the shapes scalar / 1 x ncol / nrow x ncol / "
         "per-row tuple / short recycled pattern with random legal values (row-level attributes row-constant); nrow "
         "from one page to many; page_by / subline_by removing 0-3 columns at any position; plain / page_by / "
-        "subline_by. Oracle: each parsed data cell carries exactly attr[i % R][j % C] of its ORIGINAL (row, column) "
+        "subline_by (40 % of these with the sections of one value scattered: A A B A C). Oracle: each parsed data cell carries exactly attr[i % R][j % C] of its ORIGINAL (row, column) "
         "for every attribute (colours resolved through the parsed colour table to RGB against the frozen table), "
         "page-boundary horizontal borders excluded (C07); metamorphic: the per-cell property maps of the "
         "unpaginated (nrow=10^5) and the paginated encoding are identical apart from those boundary borders. "
@@ -34,7 +34,7 @@ ASSUMPTIONS = ["per-edge border model of the emitter's documentation: an interio
 
 CFG = gen.Cfg(max_cols=6, max_rows=40, nrow_range=(2, 30), allow_group_by=False, attrs=False, dividers=False, long_text=0.0,
               coord_tags=True, dtypes=("str",), nulls=False, components=False, page_geometry=False, page_borders=False,
-              header_modes=("default", "none"), max_page_by=3, half_points=True)
+              header_modes=("default", "none"), max_page_by=3, half_points=True, subline_return=0.4)
 COORD = re.compile(r"^r(\d+)c(\d+)")
 BSTYLE = {"striped": "engraved"}     # two names, one RTF keyword
 DEFAULTS = {"text_font": 1, "text_font_size": 9, "text_format": "", "text_color": None, "text_background_color": None,
